@@ -200,6 +200,16 @@ theorem step_sim (c : Cfg) (s : Nat) (st st' : StB) (e : EvB) (h : stepB c st e 
               · cases h
               · cases h; rfl
     · cases h
+  case orchFail k =>
+    nt_norm; nt_norm_at h
+    split at h
+    · split at h
+      · cases h
+      · rename_i hc; refine (if_neg hc).trans ?_
+        split at h
+        · cases h
+        · cases h; exact congrArg some (exitLoop_nt ..)
+    · cases h
   case timeoutFire k =>
     have hks : k ≠ s := by
       intro hk
